@@ -116,7 +116,7 @@ class C04(Check):
     assumptions = ["Calibrator, json_pandas_checkpointing, sqlite3_checkpointing, pandas, h5py, pickle: real code on real files in a scratch folder",
                    "fitted third-party models inside samplers are compared by type only (behavioural equivalence is C05)",
                    "RL: queues/threads are transient by design and not part of the compared state"]
-    quick = {"runs": 800, "wall": 150, "item_timeout": 300}
+    quick = {"runs": 800, "wall": 300, "item_timeout": 300}
     thorough = {"runs": 20000, "wall": 900, "item_timeout": 180}
 
     def gen(self, rng, tier, i):
